@@ -18,7 +18,10 @@ EXTRA = {'C01-1': ['C03'], 'C19-3': ['C17'], 'C02-2': ['C03'],
          'C17-w4-2': ['C06'], 'C03-w4-2': ['C02'], 'C01-w4-2': ['C02'],
          'C07-w4-1': ['C14'], 'C11-w4-2': ['C10'], 'C09-w5-1': ['C17'],
          'C01-w5-2': ['C10'], 'C11-w5-2': ['C10'], 'C02-w5-1': ['C08'],
-         'C05-w5-2': ['C08'], 'C08-w5-1': ['C20'], 'C09-w5-2': ['C10']}
+         'C05-w5-2': ['C08'], 'C08-w5-1': ['C20'], 'C09-w5-2': ['C10'],
+         'C01-w6-2': ['C02'], 'C02-w6-2': ['C04'], 'C07-w6-2': ['C18'],
+         'C12-w6-2': ['C13'], 'C17-w6-2': ['C18', 'C08'], 'C05-w6-2': ['C06'],
+         'C11-w6-2': ['C10'], 'C09-w6-1': ['C08']}
 jobs = int(sys.argv[1]) if len(sys.argv) > 1 else 3
 only = sys.argv[2] if len(sys.argv) > 2 else ''
 
